@@ -1,4 +1,4 @@
-"""Object factory and independent functional drivers for the twelve PSD classes (used by C08; reusable).
+"""Object factory and independent functional drivers for the thirteen PSD classes (used by C08; reusable).
 
   draw_cfg(rng, cname, N)                -> constructor parameters (orders, lag, window, taper method ...), JSON-able
   make(cname, data, cfg, sampling, NFFT, sbf) -> a fresh object of the class (nothing computed yet)
@@ -9,10 +9,13 @@
 import numpy as np
 
 CLASS_NAMES = ['Periodogram', 'pcorrelogram', 'pburg', 'pyule', 'pcovar', 'pmodcovar', 'parma', 'pma', 'pminvar',
-               'pmusic', 'pev', 'MultiTapering']
+               'pmusic', 'pev', 'MultiTapering', 'pdaniell']
 GROUP = {'pburg': 'model', 'pyule': 'model', 'pcovar': 'model', 'pmodcovar': 'model', 'parma': 'model', 'pma': 'model',
          'Periodogram': 'fixed', 'pcorrelogram': 'fixed', 'MultiTapering': 'fixed', 'pmusic': 'fixed', 'pev': 'fixed',
-         'pminvar': 'minvar'}
+         'pdaniell': 'fixed', 'pminvar': 'minvar'}
+# pdaniell stores a decimated spectrum; for complex data the psd setter then overwrites NFFT with its length, so only a
+# freshly constructed object can be compared with 'df = sampling/NFFT' (the later recomputations belong to C05/C07)
+FRESH_ONLY = {('pdaniell', 'complex')}
 
 
 def draw_cfg(rng, cname, N):
@@ -33,6 +36,8 @@ def draw_cfg(rng, cname, N):
         c['order'] = int(rng.integers(2, 6))
     elif cname in ('pmusic', 'pev'):
         c['IP'] = int(rng.integers(4, 8)); c['NSIG'] = int(rng.integers(1, 3))
+    elif cname == 'pdaniell':
+        c['window'] = str(rng.choice(['hann', 'hamming', 'rectangular'])); c['P'] = int(rng.integers(1, 3))
     elif cname == 'MultiTapering':
         c['NW'] = float(rng.choice([2.0, 2.5, 3.0])); c['k'] = int(rng.integers(2, 5)); c['method'] = str(rng.choice(['eigen', 'unity', 'adapt']))
     return c
@@ -66,6 +71,8 @@ def make(cname, data, cfg, sampling, NFFT, sbf):
         return S.pmusic(data, cfg['IP'], NSIG=cfg['NSIG'], **kw)
     if cname == 'pev':
         return S.pev(data, cfg['IP'], NSIG=cfg['NSIG'], **kw)
+    if cname == 'pdaniell':
+        return S.pdaniell(data, cfg['P'], window=cfg['window'], **kw)
     if cname == 'MultiTapering':
         return MultiTapering(data, NW=cfg['NW'], k=cfg['k'], method=cfg['method'], **kw)
     raise KeyError(cname)
@@ -103,6 +110,8 @@ def functional_spectrum(cname, data, cfg, NFFT):
         from spectrum.eigenfre import eigen
         return np.asarray(eigen(data, cfg['IP'], NSIG=cfg['NSIG'], NFFT=NFFT, threshold=None, criteria='aic', verbose=False,
                                 method='music' if cname == 'pmusic' else 'ev')[0])
+    if cname == 'pdaniell':
+        return np.asarray(S.DaniellPeriodogram(data, cfg['P'], NFFT=NFFT, detrend=None, sampling=1., scale_by_freq=False, window=cfg['window'])[0])
     if cname == 'MultiTapering':
         from spectrum.mtm import pmtm
         Skc, w, _ = pmtm(data, cfg['NW'], cfg['k'], NFFT=NFFT, method=cfg['method'], show=False)
